@@ -1079,16 +1079,28 @@ def run_cases(ctx, tb, model, cases, label, pool, xmodel=None):
     c['spec_lookups'] += n_spec
 
 
+EFFECT_KINDS = ('effect', 'empty-winner')
+
+
 def coq_expand_tie(ctx, thorough):
     """The stylesheet cases of the run through the FULL expand model, evaluated inside Coq (the stylesheet pipeline
-    model uses floats): all of them in the thorough tier, a seeded sample that covers every (syntax name, section)
-    in the quick tier."""
+    model uses floats): all of them in the thorough tier (of the effect table a sample per syntax name and option), a
+    seeded sample that covers every (syntax name, section) in the quick tier."""
     items = XSTATE['coq']
     xc = expand_corr(ctx)
     if not items:
         return
     if thorough or os.environ.get('C20_EXPAND_ALL') == '1':
-        chosen = list(range(len(items)))
+        # every case of the tables of the property; of the effect table (whose subject is the ORACLE's documented-effect
+        # clause, every case of which the oracle judges) a seeded sample covering every (syntax name, option, kind)
+        chosen = [n for n, it in enumerate(items) if it[0]['kind'] not in EFFECT_KINDS]
+        groups = {}
+        for n, (case, sm, term) in enumerate(items):
+            if case['kind'] in EFFECT_KINDS:
+                groups.setdefault((case['type'], case['syntax'], case.get('key'), case['kind']), []).append(n)
+        for k in sorted(groups, key=repr):
+            chosen += ctx.rng.sample(groups[k], min(4, len(groups[k])))
+        chosen.sort()
     else:
         groups = {}
         for n, (case, sm, term) in enumerate(items):
